@@ -123,6 +123,16 @@ class DownloadOutputManager:
             },
         )
 
+    def get_io_write_tasks(self, fileobj, data, offset):
+        """Get the IO write tasks to run immediately for incoming data
+
+        This is used when the data is written in the thread that downloaded
+        it instead of being submitted to the IO executor.
+
+        :returns: A list of IO tasks to run, in order, to write the data
+        """
+        return [self.get_io_write_task(fileobj, data, offset)]
+
     def get_final_io_task(self):
         """Get the final io task to complete the download
 
@@ -248,6 +258,16 @@ class DownloadNonSeekableOutputManager(DownloadOutputManager):
                 'data': data,
             },
         )
+
+    def get_io_write_tasks(self, fileobj, data, offset):
+        # The stream cannot be rewound, so data redelivered by a retried
+        # request must go through the defer queue to be written only once.
+        with self._io_submit_lock:
+            writes = self._defer_queue.request_writes(offset, data)
+            return [
+                self.get_io_write_task(fileobj, write['data'], write['offset'])
+                for write in writes
+            ]
 
 
 class DownloadSpecialFilenameOutputManager(DownloadNonSeekableOutputManager):
@@ -625,8 +645,11 @@ class ImmediatelyWriteIOGetObjectTask(GetObjectTask):
     """
 
     def _handle_io(self, download_output_manager, fileobj, chunk, index):
-        task = download_output_manager.get_io_write_task(fileobj, chunk, index)
-        task()
+        tasks = download_output_manager.get_io_write_tasks(
+            fileobj, chunk, index
+        )
+        for task in tasks:
+            task()
 
 
 class IOWriteTask(Task):
